@@ -4,14 +4,11 @@ package c18
 import (
 	"bytes"
 	"encoding/base64"
-	"errors"
 	"fmt"
-	"io"
 	"strings"
 	"testing"
 	"time"
 
-	"github.com/wrgl/wrgl/pkg/encoding"
 	"github.com/wrgl/wrgl/pkg/encoding/packfile"
 	"github.com/wrgl/wrgl/pkg/encoding/pktline"
 	"github.com/wrgl/wrgl/pkg/misc"
@@ -21,6 +18,7 @@ import (
 	"verifharness/internal/evid"
 	"verifharness/internal/gen"
 	"verifharness/internal/model"
+	"verifharness/internal/streams"
 )
 
 func TestMain(m *testing.M) { evid.Main("C18", m) }
@@ -34,123 +32,9 @@ type Case struct {
 
 var sub = evid.Register("chunking", run)
 
-func sum16(i int) []byte { return bytes.Repeat([]byte{byte(i)}, 16) }
-
-func commitBytes(t *rapid.T) []byte {
-	c := &objects.Commit{Table: sum16(rapid.IntRange(0, 255).Draw(t, "tbl")),
-		AuthorName:  rapid.SampledFrom([]string{"", "a", "John Doe", "x\ny"}).Draw(t, "name"),
-		AuthorEmail: rapid.SampledFrom([]string{"", "j@d.com"}).Draw(t, "email"),
-		Message:     rapid.SampledFrom([]string{"", "m", strings.Repeat("msg ", 40)}).Draw(t, "msg"),
-		Time:        time.Unix(int64(rapid.IntRange(0, 2000000000).Draw(t, "sec")), 0).In(time.FixedZone("", 3600*rapid.IntRange(-3, 3).Draw(t, "zone")))}
-	for i, n := 0, rapid.IntRange(0, 3).Draw(t, "nparents"); i < n; i++ {
-		c.Parents = append(c.Parents, sum16(i+7))
-	}
-	var buf bytes.Buffer
-	c.WriteTo(&buf)
-	return buf.Bytes()
-}
-
-func tableBytes(t *rapid.T) []byte {
-	n := rapid.IntRange(0, 4).Draw(t, "ncols")
-	cols := []string{"a", "b", "col c", "d"}[:n]
-	rows := rapid.SampledFrom([]int{0, 1, 255, 256, 600}).Draw(t, "rows")
-	tb := objects.NewTable(cols, nil)
-	if n > 0 {
-		tb.PK = []uint32{uint32(rapid.IntRange(0, n-1).Draw(t, "pk"))}
-	}
-	tb.RowsCount = uint32(rows)
-	for i := 0; i < (rows+254)/255; i++ {
-		tb.Blocks = append(tb.Blocks, sum16(i+1))
-		tb.BlockIndices = append(tb.BlockIndices, sum16(i+100))
-	}
-	var buf bytes.Buffer
-	tb.WriteTo(&buf)
-	return buf.Bytes()
-}
-
-func smallRows(t *rapid.T) [][]string {
-	n := rapid.IntRange(1, 6).Draw(t, "nrows")
-	rows := [][]string{}
-	for i := 0; i < n; i++ {
-		rows = append(rows, []string{fmt.Sprintf("k%d", i), rapid.SampledFrom([]string{"", "v", "a,b", strings.Repeat("z", 300)}).Draw(t, "cell"), "t"})
-	}
-	return rows
-}
-
-func blockIndexBytes(rows [][]string) []byte {
-	idx, _ := objects.IndexBlock(objects.NewStrListEncoder(true), model.NewHash(), rows, []uint32{0})
-	var buf bytes.Buffer
-	idx.WriteTo(&buf)
-	return buf.Bytes()
-}
-
-func profileBytes(t *rapid.T) []byte {
-	p := &objects.TableProfile{RowsCount: 3}
-	for i, n := 0, rapid.IntRange(0, 3).Draw(t, "ncols"); i < n; i++ {
-		f := 1.5
-		col := &objects.ColumnProfile{Name: fmt.Sprintf("c%d", i), NACount: 1, MaxStrLen: 9}
-		if rapid.Bool().Draw(t, "stats") {
-			col.Min, col.Mean = &f, &f
-			col.Percentiles = []float64{1, 2, 3}
-			col.TopValues = objects.ValueCounts{{Value: "a", Count: 2}, {Value: "", Count: 1}}
-		}
-		p.Columns = append(p.Columns, col)
-	}
-	var buf bytes.Buffer
-	p.WriteTo(&buf)
-	return buf.Bytes()
-}
-
-func genStream(t *rapid.T) (kind string, data []byte, fields int) {
-	kind = rapid.SampledFrom([]string{"packfile", "packfile", "pktline", "commit", "table", "block", "blockindex", "profile", "strlist", "strlistbytes"}).Draw(t, "kind")
-	switch kind {
-	case "packfile":
-		var buf bytes.Buffer
-		w, _ := packfile.NewPackfileWriter(&buf)
-		n := rapid.IntRange(0, 4).Draw(t, "nobjs")
-		for i := 0; i < n; i++ {
-			switch rapid.IntRange(0, 2).Draw(t, "objkind") {
-			case 0:
-				w.WriteObject(packfile.ObjectCommit, commitBytes(t))
-			case 1:
-				w.WriteObject(packfile.ObjectTable, tableBytes(t))
-			default:
-				w.WriteObject(packfile.ObjectBlock, model.EncodeBlock(smallRows(t)))
-			}
-		}
-		return kind, buf.Bytes(), n
-	case "pktline":
-		var buf bytes.Buffer
-		n := rapid.IntRange(1, 6).Draw(t, "nlines")
-		for i := 0; i < n; i++ {
-			pktline.WritePktLine(&buf, misc.NewBuffer(nil), rapid.SampledFrom([]string{"", "want 0123", "have abcdef", "done", strings.Repeat("x", 200)}).Draw(t, "line"))
-		}
-		return kind, buf.Bytes(), n
-	case "commit":
-		return kind, commitBytes(t), 5
-	case "table":
-		return kind, tableBytes(t), 3
-	case "block":
-		r := smallRows(t)
-		return kind, model.EncodeBlock(r), len(r)
-	case "blockindex":
-		r := smallRows(t)
-		return kind, blockIndexBytes(r), len(r)
-	case "profile":
-		return kind, profileBytes(t), 5
-	default:
-		r := smallRows(t)
-		var b []byte
-		for _, row := range r {
-			b = append(b, model.EncodeStrList(row)...)
-		}
-		return kind, b, len(r)
-	}
-}
-
 func TestPropChunking(t *testing.T) {
 	rapid.Check(t, func(t *rapid.T) {
-		kind, data, fields := genStream(t)
+		kind, data, fields := streams.Gen(t)
 		c := Case{Kind: kind, B64: base64.StdEncoding.EncodeToString(data), Fields: fields, S: gen.GenSchedule(t, len(data), "sched")}
 		sub.Check(t, c)
 	})
@@ -158,115 +42,17 @@ func TestPropChunking(t *testing.T) {
 
 func TestReplay(t *testing.T) { evid.Replay(t) }
 
-// decode reads the whole stream with the decoder for its kind and returns a canonical rendering of
-// what was decoded plus the terminal condition.
-func decode(kind string, r io.Reader) (string, error) {
-	var out strings.Builder
-	switch kind {
-	case "packfile":
-		pr, err := packfile.NewPackfileReader(io.NopCloser(r))
-		if err != nil {
-			return "", fmt.Errorf("NewPackfileReader: %v", err)
-		}
-		for i := 0; i < 100; i++ {
-			ty, b, err := pr.ReadObject()
-			if err != nil {
-				if errors.Is(err, io.EOF) {
-					fmt.Fprintf(&out, "EOF")
-					return out.String(), nil
-				}
-				return out.String(), fmt.Errorf("ReadObject #%d: %v", i, err)
-			}
-			fmt.Fprintf(&out, "obj(%d,%x);", ty, model.Sum(b))
-		}
-	case "pktline":
-		p := encoding.NewParser(r)
-		for i := 0; i < 100; i++ {
-			s, err := pktline.ReadPktLine(p)
-			if err != nil {
-				if errors.Is(err, io.EOF) {
-					fmt.Fprintf(&out, "EOF")
-					return out.String(), nil
-				}
-				return out.String(), fmt.Errorf("ReadPktLine #%d: %v", i, err)
-			}
-			fmt.Fprintf(&out, "line(%q);", s)
-		}
-	case "commit":
-		_, c, err := objects.ReadCommitFrom(r)
-		if err != nil {
-			return "", err
-		}
-		fmt.Fprintf(&out, "%x|%q|%q|%d|%q|%x", c.Table, c.AuthorName, c.AuthorEmail, c.Time.Unix(), c.Message, c.Parents)
-	case "table":
-		_, tb, err := objects.ReadTableFrom(r)
-		if err != nil {
-			return "", err
-		}
-		fmt.Fprintf(&out, "%q|%v|%d|%x|%x", tb.Columns, tb.PK, tb.RowsCount, tb.Blocks, tb.BlockIndices)
-	case "block":
-		_, blk, err := objects.ReadBlockFrom(r)
-		if err != nil {
-			return "", err
-		}
-		fmt.Fprintf(&out, "%q", blk)
-	case "blockindex":
-		_, idx, err := objects.ReadBlockIndex(r)
-		if err != nil {
-			return "", err
-		}
-		var buf bytes.Buffer
-		idx.WriteTo(&buf)
-		fmt.Fprintf(&out, "%x", buf.Bytes())
-	case "profile":
-		p := &objects.TableProfile{}
-		if _, err := p.ReadFrom(r); err != nil {
-			return "", err
-		}
-		var buf bytes.Buffer
-		p.WriteTo(&buf)
-		fmt.Fprintf(&out, "%x", buf.Bytes())
-	case "strlist":
-		dec := objects.NewStrListDecoder(false)
-		for i := 0; i < 100; i++ {
-			_, sl, err := dec.Read(r)
-			if err != nil {
-				if errors.Is(err, io.EOF) {
-					fmt.Fprintf(&out, "EOF")
-					return out.String(), nil
-				}
-				return out.String(), err
-			}
-			fmt.Fprintf(&out, "%q;", sl)
-		}
-	case "strlistbytes":
-		dec := objects.NewStrListDecoder(false)
-		for i := 0; i < 100; i++ {
-			_, b, err := dec.ReadBytes(r)
-			if err != nil {
-				if errors.Is(err, io.EOF) {
-					fmt.Fprintf(&out, "EOF")
-					return out.String(), nil
-				}
-				return out.String(), err
-			}
-			fmt.Fprintf(&out, "%x;", b)
-		}
-	}
-	return out.String(), nil
-}
-
 func run(c Case) (o evid.Outcome, err error) {
 	data, derr := base64.StdEncoding.DecodeString(c.B64)
 	if derr != nil {
 		return o, fmt.Errorf("HARNESS: %v", derr)
 	}
-	want, werr := decode(c.Kind, bytes.NewReader(data))
+	want, werr := streams.Decode(c.Kind, bytes.NewReader(data))
 	if werr != nil {
 		return o, fmt.Errorf("HARNESS: a valid %s stream does not decode from a plain buffer: %v", c.Kind, werr)
 	}
 	cr := gen.NewChunkReader(data, c.S)
-	got, gerr := decode(c.Kind, cr)
+	got, gerr := streams.Decode(c.Kind, cr)
 	if gerr != nil {
 		return o, fmt.Errorf("%s stream of %d bytes decodes from one buffer but fails when delivered as %s: %v", c.Kind, len(data), describe(c.S), gerr)
 	}
@@ -303,13 +89,13 @@ func describe(s gen.Schedule) string {
 // point, with and without data+EOF.
 func TestExhaustiveSplits(t *testing.T) {
 	rows := [][]string{{"k1", "v", "t"}, {"k2", "", "t"}, {"k3", strings.Repeat("q", 40), "t"}}
-	com := &objects.Commit{Table: sum16(1), AuthorName: "John", AuthorEmail: "j@d", Message: "hello", Time: time.Unix(1600000000, 0).UTC(), Parents: [][]byte{sum16(2), sum16(3)}}
+	com := &objects.Commit{Table: streams.Sum16(1), AuthorName: "John", AuthorEmail: "j@d", Message: "hello", Time: time.Unix(1600000000, 0).UTC(), Parents: [][]byte{streams.Sum16(2), streams.Sum16(3)}}
 	var cb bytes.Buffer
 	com.WriteTo(&cb)
 	tb := objects.NewTable([]string{"a", "b"}, []uint32{0})
 	tb.RowsCount = 300
-	tb.Blocks = [][]byte{sum16(1), sum16(2)}
-	tb.BlockIndices = [][]byte{sum16(3), sum16(4)}
+	tb.Blocks = [][]byte{streams.Sum16(1), streams.Sum16(2)}
+	tb.BlockIndices = [][]byte{streams.Sum16(3), streams.Sum16(4)}
 	var tbuf bytes.Buffer
 	tb.WriteTo(&tbuf)
 	var pf bytes.Buffer
@@ -334,7 +120,7 @@ func TestExhaustiveSplits(t *testing.T) {
 		data []byte
 	}{
 		{"packfile", pf.Bytes()}, {"pktline", pl.Bytes()}, {"commit", cb.Bytes()}, {"table", tbuf.Bytes()},
-		{"block", model.EncodeBlock(rows)}, {"blockindex", blockIndexBytes(rows)}, {"profile", pb.Bytes()}, {"strlist", sl}, {"strlistbytes", sl},
+		{"block", model.EncodeBlock(rows)}, {"blockindex", streams.BlockIndexBytes(rows)}, {"profile", pb.Bytes()}, {"strlist", sl}, {"strlistbytes", sl},
 	}
 	for _, s := range samples {
 		for cut := 1; cut < len(s.data); cut++ {
